@@ -31,7 +31,7 @@ LEVEL_TEXT.update({
     'C01': 'Kernel only. Unbounded deductive proof (Verus): Ranges::next equals a reference IFS splitter on every input; only unquoted expansion results are classified as separators; the unset-or-null table of the switch forms equals XCU 2.6.2. Bounded (Kani, concrete enumeration): the real Ifs::new/non_whitespaces/Ranges::next against an executable reference for five IFS values and inputs of <= 2-3 characters. The statement as a whole (all expansion forms x all shell states) runs through async code and is not decided.',
 })
 LEVEL_TEXT.update({
-    'C04': 'Bounded checks (Kani) of the translation kernel on the real code: each ASCII literal is emitted as itself in both regex positions, collating symbols/equivalence classes stand for their characters, ? * and unclosed [; plus an unbounded Verus proof of make_range. Not a decision of the language equality, which is delegated to the regex engine.',
+    'C04': 'Translation kernel: unbounded Verus proofs that every literal character (all of char) is emitted as text denoting itself outside and inside a character class, that ? * become . .*, that a range is start-hyphen-end, and of make_range; bounded Kani checks (every ASCII character, one-character symbols) for the emitters Verus cannot take, and the unclosed-[ case. Not a decision of the language equality, which is delegated to the regex engine.',
 })
 LEVEL_TEXT.update({
     'C07': 'Complete per-character proofs (Kani, loop-free over every char) that the quoting decision and the lexer classify characters consistently, plus a bounded check (texts of <= 2 characters over 16 characters, literal expectations) that quoted()/Display for Quoted produce a form that reads back as the original text; the printers of state listings and the lexer as a whole are not decided.',
@@ -52,7 +52,7 @@ NOTE.update({
     'C01': 'Kernel only (field splitting). Trusted: Verus/Z3, vstd iterator model; IFS membership uninterpreted; reference splitter is my reading of XCU 2.6.5. Not covered: parameter expansion modifiers, nounset, $@/$* joining, quote removal, read, lexer.',
 })
 NOTE.update({
-    'C04': 'Bounded (ASCII, one-character symbols). Trusted: Kani/CBMC, Verus/Z3, regex-syntax grammar facts. Not covered: bracket parser with quoted characters (F2), non-ASCII, regex engine, trim_value, case.',
+    'C04': 'Trusted: Verus/Z3, Kani/CBMC, regex-syntax grammar facts, a model of fmt::Write. Kani part bounded (ASCII, one-character symbols). Not covered: bracket parser with quoted characters (F2), Bracket::fmt_regex frame, anchoring/find/rfind, regex engine, trim_value, case.',
 })
 NOTE.update({
     'C07': 'Kernel only. Trusted: Kani/CBMC, std char::is_whitespace, the reference un-quoter of tools/gen_quote.py. Not covered: texts longer than 2 characters, the real lexer re-reading the form, printers of state listings.',
@@ -79,7 +79,7 @@ TECH.update({
 
 
 TECH.update({
-    'C04': 'Kani harness-encoded contracts on the real crate (bounded) + Verus contract on make_range',
+    'C04': 'contract-based deductive verification (Verus) of the escaping kernel and make_range + Kani harness-encoded contracts on the real crate (bounded)',
 })
 
 
